@@ -274,6 +274,8 @@ def run(tier, seed):
     par.pmap(_FI.work, _FI.tasks(), extra=(('monotone',),), stats=st, chunk=6)
     km = key_material_tasks(tier)
     par.pmap(work_key_material, km, stats=st, chunk=16)
+    from props import delivery as _DL
+    par.pmap(_DL.work, _DL.tasks(tier), extra=(('monotone',),), stats=st, chunk=12)
     vcases = []
     for pname in H.pick([n for n in sorted(BP) if BP[n]['server_policy']], seed, 6 if tier == 'quick' else 24):
         p = BP[pname]
